@@ -163,6 +163,49 @@ def tiny_game(rng):
     return {"rewards": [0, 0], "players": [P2, PR], "transition_list": [[("x", 1), ("y", 1)], [(1, 1)]], "final_states": [1, 1]}
 
 
+def variant_game(rng, base, kind=None):
+    """A *well-formed* near-twin of base: same size and shape, one detail different.
+    kinds: players (one state handed to the other player), reward, rewire (one transition
+    points elsewhere: same counts, other wiring), nudge (one probability moved by 4e-7)."""
+    g = copy.deepcopy(base)
+    kind = kind or rng.choice(["players", "reward", "rewire", "rewire", "nudge", "nudge"])
+    try:
+        n = len(g["players"])
+        tl = g["transition_list"]
+        if kind == "players":
+            owners = [i for i, pl in enumerate(g["players"]) if pl in (P1, P2)]
+            if owners:
+                i = rng.choice(owners)
+                g["players"][i] = P2 if g["players"][i] == P1 else P1
+                return g, kind
+            kind = "reward"
+        if kind == "rewire":
+            cands = [(i, j) for i in range(n) for j in range(len(tl[i])) if n > 1]
+            rng.shuffle(cands)
+            for i, j in cands[:20]:
+                a, s_ = tl[i][j]
+                t = rng.randrange(n)
+                if t != s_ and isinstance(s_, int):
+                    tl[i] = tl[i][:j] + [(a, t)] + tl[i][j + 1:]
+                    return g, kind
+            kind = "nudge"
+        if kind == "nudge":
+            rows = [i for i in range(n) if g["players"][i] == PR and len(tl[i]) >= 2
+                    and all(isinstance(p_, float) and 1e-5 < p_ < 1 - 1e-5 for p_, _ in tl[i][:2])]
+            if rows:
+                i = rng.choice(rows)
+                (p0, s0), (p1, s1) = tl[i][0], tl[i][1]
+                tl[i] = [(p0 + 4e-7, s0), (p1 - 4e-7, s1)] + tl[i][2:]
+                return g, kind
+            kind = "reward"
+        k = rng.randrange(len(g["rewards"]))
+        if isinstance(g["rewards"][k], (int, float)) and not isinstance(g["rewards"][k], bool):
+            g["rewards"][k] = g["rewards"][k] + rng.randint(1, 3)
+    except Exception:
+        pass
+    return g, kind
+
+
 def _probs(rng, k):
     if k == 1:
         return [1 if rng.random() < 0.7 else 1.0]
